@@ -201,3 +201,12 @@ claim(
     "abstract interpretation with exhaustive order-type enumeration; decision table over the 27 symmetry tuples; syntax-tree guard rule",
     "DESIGN.md §5 C34",
 )
+
+claim(
+    "C39",
+    "other",
+    "Decides the material description code by abstract interpretation: _normalize_material_property maps scalar, 3-tuple, flat 9-tuple and nested 3x3 inputs of pairwise distinct values to the same row-major 9-tuple and rejects malformed tuples; each of the six off-diagonal positions falsifies both the isotropic and the diagonal predicate and a changed diagonal entry only the isotropic one; the per-property Material predicates (isotropic / diagonal / magnetic / conductive) react to their own property's tensor and to no other; compute_ordered_names / _materials and the four compute_allowed_* lists in all three tiers enumerate a shuffled dictionary in one common order with tier slices (xx), (xx,yy,zz), all nine, and no other function in the package sorts a materials dictionary; from_complex_permittivity with symbolic complex entries in all input formats stores Re(input) and a conductivity whose quotient by omega*eps0 (omega*mu0) is Im(input) at the same row-major position, omega = 2 pi f from exactly one of reference / wavelength / frequency. math.isclose float tolerances are not decided.",
+    TB + "; math.isclose exact on rationals; determinant check of from_complex_permittivity stubbed; symbolic reals accepted as floats (opt-in)",
+    "abstract interpretation with position-identifying distinct values; single-entry perturbation tables for the predicates; polynomial identity over Q(i) for the complex split; syntax-tree who-may-sort rule",
+    "DESIGN.md §5 C39",
+)
